@@ -292,26 +292,60 @@ def run(ctx):
             lw = self_attr("log_w")
             shifted_lw = spec("w - max(w)", w=lw)
             ok, why = False, f"mask is {T.show(mask)[:300]}"
+
+            def alternatives(t):
+                """t with every embedded phi resolved to one of its branches (all combinations)."""
+                ph = next((x for x in T.subterms(t) if x and x[0] == "phi"), None)
+                if ph is None:
+                    yield t
+                    return
+                for br in (ph[2], ph[3]):
+                    yield from alternatives(T.substitute(t, {ph: br}))
+
+            def uniform_ok(u):
+                """u is one U[0,1) draw per sample: rng.uniform(size=N) / xp.rand(N) / rng.random(N)"""
+                if not (u is not None and u[0] == "f"):
+                    return False, f"{T.show(u)[:80] if u else None} is not a uniform draw"
+                name = u[1].rsplit(".", 1)[-1].replace("method:", "")
+                ukw = dict(u[3])
+                pos = [a for a in u[2] if a != T.atom("rng") and not (a[0] == "attr" and a[2] in ("xp",)) and a[0] != "ref" and not (a[0] == "a" and a[1] in ("rng", "xp"))]
+                if name == "uniform":
+                    size = ukw.get("size")
+                    lo, hi = ukw.get("low"), ukw.get("high")
+                    if size not in (N, ("t", (N,))):
+                        return False, f"uniform draw has size {T.show(size) if size else None}, expected one per sample"
+                    if not ((lo is None or lo == T.ZERO) and (hi is None or hi == T.ONE) and len(u[2]) <= 1):
+                        return False, f"uniform draw has bounds {T.show(u)[:120]}"
+                    return True, ""
+                if name in ("rand", "random", "random_sample"):
+                    size = ukw.get("size") or (pos[-1] if pos else None)
+                    if size not in (N, ("t", (N,))):
+                        return False, f"uniform draw has size {T.show(size) if size else None}, expected one per sample"
+                    return True, ""
+                return False, f"{T.show(u)[:80]} is not a recognised U[0,1) draw"
+
             if mask[0] == "cmp" and mask[1] in (">", ">=") and len(mask) == 3:
-                r = T.sub(shifted_lw, mask[2])  # must be log(U)
-                r2 = T.sub(spec("exp(w - max(w))", w=lw), mask[2])  # or U itself
-                for cand, form in ((r, "log"), (r2, "lin")):
-                    u = None
-                    if form == "log" and cand[0] == "f" and cand[1] == "log" and cand[2]:
-                        u = cand[2][0]
-                    elif form == "lin":
-                        u = cand
-                    if u is not None and u[0] == "f" and u[1].endswith("uniform"):
-                        ukw = dict(u[3])
-                        size = ukw.get("size")
-                        if size in (N, ("t", (N,))):
-                            lo, hi = ukw.get("low"), ukw.get("high")
-                            if (lo is None or lo == T.ZERO) and (hi is None or hi == T.ONE) and len(u[2]) <= 1:
-                                ok, why = True, f"keep iff log_w - max(log_w) {mask[1]} log U, U = {T.show(u)[:80]}"
-                            else:
-                                why = f"uniform draw has bounds {T.show(u)[:120]}"
-                        else:
-                            why = f"uniform draw has size {T.show(size) if size else None}, expected one per sample"
+                alts = list(alternatives(mask[2]))
+                results = []
+                for alt in alts:
+                    r = T.sub(shifted_lw, alt)  # must be log(U)
+                    r2 = T.sub(spec("exp(w - max(w))", w=lw), alt)  # or U itself
+                    good, msg = False, f"mask is {T.show(('cmp', mask[1], alt))[:200]}"
+                    for cand, form in ((r, "log"), (r2, "lin")):
+                        u = None
+                        if form == "log" and cand[0] == "f" and cand[1] == "log" and cand[2]:
+                            u = cand[2][0]
+                        elif form == "lin" and cand[0] == "f":
+                            u = cand
+                        if u is not None:
+                            g, mm = uniform_ok(u)
+                            if g:
+                                good, msg = True, f"keep iff log_w - max(log_w) {mask[1]} log U, U = {T.show(u)[:80]}"
+                                break
+                            msg = mm
+                    results.append((good, msg))
+                ok = bool(results) and all(g for g, _ in results)
+                why = "; ".join(dict.fromkeys(mm for g, mm in results if g == ok))[:400]
             ctx.decide(ok, "C02.rej", m.ident, loc_of(m, news[0].node), why,
                        f"rejection mask is not (log_w - max(log_w) > log U): {why}")
             flds = {k: v for k, v in kw.items() if k in ("log_likelihood", "log_prior", "log_q")}
@@ -424,6 +458,8 @@ MUTANTS = [
       "return self.effective_sample_size / (len(self.x) - 1)", "C02.eff"),
     M("scaled weights unshifted", _S, "return self.xp.exp(self.log_w - self.xp.max(self.log_w))",
       "return self.xp.exp(self.log_w)", "C02.eff"),
+    M("rejection uniforms of the wrong size on torch", _S, "log_u = asarray(\n            np.log(rng.uniform(size=len(self.x))), self.xp, device=self.device\n        )",
+      "if self.device is not None:\n            log_u = self.xp.log(self.xp.rand(1))\n        else:\n            log_u = asarray(np.log(rng.uniform(size=len(self.x))), self.xp, device=self.device)", "C02.rej"),
     M("rejection compares the wrong way", _S, "accept = log_w > log_u", "accept = log_w < log_u", "C02.rej"),
     M("rejection without max shift", _S, "log_w = self.log_w - self.xp.max(self.log_w) accept = log_w > log_u",
       "log_w = self.log_w\n        accept = log_w > log_u", "C02.rej"),
@@ -447,6 +483,8 @@ MUTANTS += [
     M("logsumexp ignores axis", _U, "return c + xp.log(xp.sum(xp.exp(x - c), axis=axis))", "return c + xp.log(xp.sum(xp.exp(x - c)))", "C02.lse"),
 ]
 NEUTRALS = [
+    M("rejection uniforms drawn on the device for torch", _S, "log_u = asarray(\n            np.log(rng.uniform(size=len(self.x))), self.xp, device=self.device\n        )",
+      "if self.device is not None:\n            log_u = self.xp.log(self.xp.rand(len(self.x), device=self.device))\n        else:\n            log_u = asarray(np.log(rng.uniform(size=len(self.x))), self.xp, device=self.device)"),
     M("evidence with the -log N inside the logsumexp", _S, "self.log_evidence = asarray(logsumexp(self.log_w), self.xp) - math.log(\n            len(self.x)\n        )", "self.log_evidence = asarray(logsumexp(self.log_w - math.log(len(self.x))), self.xp)"),
     M("ESS via normalised weights", _S, "self.effective_sample_size = self.xp.exp(\n            asarray(logsumexp(log_w) * 2 - logsumexp(log_w * 2), self.xp)\n        )", "wn = self.xp.exp(log_w - logsumexp(log_w))\n        self.effective_sample_size = 1 / self.xp.sum(wn**2)", within="Samples.compute_weights"),
     M("log_w operands reordered", _S, "self.log_w = self.log_likelihood + self.log_prior - self.log_q",
